@@ -1046,6 +1046,16 @@ add("keynorm-09-short-key-never-copied-into-the-buffer", ["C03", "C04"], "heavyh
 add("dead-12-log-process-left-running-after-a-dead-worker", ["C19"], "helpers",
     "                # Kill the log worker because it is still going\n                log_process.kill()\n", "",
     note="the failure is reported but the non-daemon log process keeps the interpreter alive")
+add("E-layout-05-hh-counters-padded-to-8-on-both-sides", ["C16", "C08", "C05"], "heavyhitters",
+    "                size=(lhh_nbytes + lhh_count_nbytes + key_lens_nbytes + n_added_nbytes),\n",
+    "                size=(lhh_nbytes + lhh_count_nbytes + key_lens_nbytes + (-(lhh_nbytes + lhh_count_nbytes + key_lens_nbytes) % 8) + n_added_nbytes),\n",
+    kind="E", note="owner and attacher both start the bookkeeping counters at the next multiple of 8: the same layout on both sides",
+    also=[("heavyhitters",
+           "            ).reshape(self.depth, self.width)\n            start = end\n            self.n_added_records = np.frombuffer(\n                self.shm.buf[start:],",
+           "            ).reshape(self.depth, self.width)\n            start = end + (-end % 8)\n            self.n_added_records = np.frombuffer(\n                self.shm.buf[start:],"),
+          ("heavyhitters",
+           "        ).reshape(self.depth, self.width)\n        start = end\n        self.n_added_records = np.frombuffer(\n            existing_shm.buf[start:],",
+           "        ).reshape(self.depth, self.width)\n        start = end + (-end % 8)\n        self.n_added_records = np.frombuffer(\n            existing_shm.buf[start:],")])
 add("factory-07-num-reserved-zero-taken-for-unset", ["C16"], "countmin",
     "    elif cms_type == \"log16\":\n        if num_reserved is None:", "    elif cms_type == \"log16\":\n        if not num_reserved:",
     note="CountMin(..., num_reserved=0) builds a log16 sketch with the default 1023: an attached view decodes differently")
